@@ -150,7 +150,7 @@ fn run_job(j: &Job, shared: &Params) -> String {
 }
 
 fn threads(ctx: &Ctx, rep: &mut Report) {
-    let rounds = if ctx.thorough() { 40 } else { 6 };
+    let rounds = if ctx.thorough() { 160 } else { 6 };
     let tsan = ctx.flag("profile=tsan");
     for r in 0..rounds {
         let id = 5000 + r;
